@@ -476,13 +476,13 @@ def level_pairing(ctx, c, o):
     o.sample({'accept_path': 'stored <=> level += count(arg) once', 'release_path': 'handed(head) <=> pop(0) <=> level -= count(that head)'})
 
 
-def _ifexp_branches(e):
-    """[(expr, 'batch'|'single'|None)] -- a conditional expression on isinstance(self._part, Batch) is split into its two cases"""
+def _ifexp_branches(e, is_subject=lambda x: ast.unparse(x) == 'self._part'):
+    """[(expr, 'batch'|'single'|None)] -- a conditional expression on isinstance(<the accepted part>, Batch) is split into its two cases"""
     if isinstance(e, ast.IfExp):
         t, neg = e.test, False
         while isinstance(t, ast.UnaryOp) and isinstance(t.op, ast.Not):
             t, neg = t.operand, not neg
-        if ast.unparse(t) == 'isinstance(self._part, Batch)':
+        if isinstance(t, ast.Call) and ast.unparse(t.func) == 'isinstance' and len(t.args) == 2 and ast.unparse(t.args[1]) == 'Batch' and is_subject(t.args[0]):
             a, b = (e.orelse, e.body) if neg else (e.body, e.orelse)
             return [(a, 'batch'), (b, 'single')]
     return [(e, None)]
@@ -539,7 +539,7 @@ def part_counting(ctx, o):
                     if r_ is not None:
                         inc = r_[0]
                 outs = []
-                for br, fl in _ifexp_branches(inc):
+                for br, fl in _ifexp_branches(inc, lambda x: ast.unparse(x) == 'self._part' or an.ev(x, before, n.frame) == 'arg'):
                     v = ast.unparse(br)
                     kind = 'len' if v == 'len(self._part.parts)' else 'one' if v == '1' else 'other'
                     if kind == 'other' and isinstance(br, ast.Call) and ast.unparse(br.func) == 'len' and len(br.args) == 1 and isinstance(br.args[0], ast.Attribute) \
